@@ -698,6 +698,23 @@ impl<'a> Session<'a> {
         }
     }
 
+    /// equal value, other bytes: what `from_bytes` makes of another producer's encoding of `b`
+    fn alt_encoding(&self, b: &[u8], idx: usize) -> Option<Vec<u8>> {
+        if self.sc.alt_values == 0 {
+            return None;
+        }
+        let mut r = crate::prng::Rng::new(crate::prng::mix(self.sc.alt_values as u64, idx as u64));
+        if r.chance(1, 3) {
+            return None;
+        }
+        let n = crate::cbor::parse(b).ok()?;
+        let mut f = crate::cbor::Foreign::new(&mut r, 120, 150, 0, 0);
+        f.p_untag = 600;
+        let mut o = vec![];
+        f.emit(&n, &mut o);
+        Some(o)
+    }
+
     fn mark_value_change(&mut self) {
         self.dirty_balance = true;
     }
@@ -1108,8 +1125,13 @@ impl<'a> Session<'a> {
             Op::Cert(c, wit) => {
                 need!(wit.as_ref().map_or(true, |w| self.wit_ok(w)));
                 need!(self.cert_ok(c));
-                let cert = self.cert(c);
+                let mut cert = self.cert(c);
                 let cert_bytes = cert.to_bytes();
+                if let Some(alt) = self.alt_encoding(&cert_bytes, idx) {
+                    if let Ok(c2) = csl::Certificate::from_bytes(alt) {
+                        cert = c2;
+                    }
+                }
                 let r = match wit {
                     None => {
                         let b = &mut self.certs;
@@ -1255,8 +1277,13 @@ impl<'a> Session<'a> {
             Op::Propose(p, wit) => {
                 need!(self.cred_ok(&p.reward) && wit.as_ref().map_or(true, |w| self.wit_ok(w)));
                 need!(self.proposal_ok(p));
-                let prop = self.proposal(p);
+                let mut prop = self.proposal(p);
                 let pbytes = prop.to_bytes();
+                if let Some(alt) = self.alt_encoding(&pbytes, idx) {
+                    if let Ok(p2) = csl::VotingProposal::from_bytes(alt) {
+                        prop = p2;
+                    }
+                }
                 let r = match wit {
                     None => {
                         let b = &mut self.props;
